@@ -42,11 +42,14 @@ CatSep(ss, sep) == IF ss = <<>> THEN ""
 (* 1. The table.  `src' says where the row comes from: "table" = a row of    *)
 (* docs/operators.md; "statement" = named by the property statement /        *)
 (* docs/iterators.md but not a row of the table (slicing, tuple and field    *)
-(* access, collect).  Sym = a pure operator symbol (takes part in Lex);      *)
-(* Form = an operator that embeds operands (`[i]', `$ init', `? type' ...).  *)
+(* access, collect).  Sym = a pure operator symbol given with its            *)
+(* characters (takes part in Lex); Form = an operator that embeds operands   *)
+(* (`[i]', `$ init', `? type' ...): n = name without blanks, txt = source.   *)
+(* (No recursive operator may be used here: TLC evaluates a definition once  *)
+(* and keeps the value only if no RECURSIVE operator is involved.)           *)
 (***************************************************************************)
-Sym(cs, fix, lvl, src) ==
-  [n |-> Cat(cs), txt |-> Cat(cs), cs |-> cs, fix |-> fix, lvl |-> lvl, src |-> src]
+Sym(n, cs, fix, lvl, src) ==
+  [n |-> n, txt |-> n, cs |-> cs, fix |-> fix, lvl |-> lvl, src |-> src]
 Form(n, txt, fix, lvl, src) ==
   [n |-> n, txt |-> txt, cs |-> <<>>, fix |-> fix, lvl |-> lvl, src |-> src]
 
@@ -59,58 +62,58 @@ Table == <<
   Form(".x", ".x", "post", 1, "statement"),
   Form("?int", "? int", "post", 1, "table"),
   \* level 2: prefix operators
-  Sym(<<"!">>, "pre", 2, "table"),
-  Sym(<<"-">>, "pre", 2, "table"),
-  Sym(<<"*">>, "pre", 2, "table"),
+  Sym("!", <<"!">>, "pre", 2, "table"),
+  Sym("-", <<"-">>, "pre", 2, "table"),
+  Sym("*", <<"*">>, "pre", 2, "table"),
   \* level 3: iterator operators
-  Sym(<<"@">>, "bin", 3, "table"),
-  Sym(<<"?">>, "bin", 3, "table"),
-  Sym(<<"\\">>, "bin", 3, "table"),
+  Sym("@", <<"@">>, "bin", 3, "table"),
+  Sym("?", <<"?">>, "bin", 3, "table"),
+  Sym("\\", <<"\\">>, "bin", 3, "table"),
   Form("$i", "$ i", "bin", 3, "table"),
-  Sym(<<"$", "+">>, "post", 3, "table"),
-  Sym(<<"$", "*">>, "post", 3, "table"),
-  Sym(<<"$", "&", "&">>, "post", 3, "table"),
-  Sym(<<"$", "|", "|">>, "post", 3, "table"),
-  Sym(<<"$", "&">>, "post", 3, "table"),
-  Sym(<<"$", "|">>, "post", 3, "table"),
-  Sym(<<"$", "]">>, "post", 3, "statement"),
-  Sym(<<"~">>, "post", 3, "table"),
+  Sym("$+", <<"$", "+">>, "post", 3, "table"),
+  Sym("$*", <<"$", "*">>, "post", 3, "table"),
+  Sym("$&&", <<"$", "&", "&">>, "post", 3, "table"),
+  Sym("$||", <<"$", "|", "|">>, "post", 3, "table"),
+  Sym("$&", <<"$", "&">>, "post", 3, "table"),
+  Sym("$|", <<"$", "|">>, "post", 3, "table"),
+  Sym("$]", <<"$", "]">>, "post", 3, "statement"),
+  Sym("~", <<"~">>, "post", 3, "table"),
   \* levels 4 .. 13
-  Sym(<<"*", "*">>, "bin", 4, "table"),
-  Sym(<<"*">>, "bin", 5, "table"),
-  Sym(<<"/">>, "bin", 5, "table"),
-  Sym(<<"%">>, "bin", 5, "table"),
-  Sym(<<"+">>, "bin", 6, "table"),
-  Sym(<<"-">>, "bin", 6, "table"),
-  Sym(<<"<", "<">>, "bin", 7, "table"),
-  Sym(<<">", ">">>, "bin", 7, "table"),
-  Sym(<<"&">>, "bin", 8, "table"),
-  Sym(<<"^">>, "bin", 9, "table"),
-  Sym(<<"|">>, "bin", 10, "table"),
-  Sym(<<"=", "=">>, "bin", 11, "table"),
-  Sym(<<"!", "=">>, "bin", 11, "table"),
-  Sym(<<"<">>, "bin", 11, "table"),
-  Sym(<<"<", "=">>, "bin", 11, "table"),
-  Sym(<<">">>, "bin", 11, "table"),
-  Sym(<<">", "=">>, "bin", 11, "table"),
-  Sym(<<"&", "&">>, "bin", 12, "table"),
-  Sym(<<"|", "|">>, "bin", 13, "table"),
+  Sym("**", <<"*", "*">>, "bin", 4, "table"),
+  Sym("*", <<"*">>, "bin", 5, "table"),
+  Sym("/", <<"/">>, "bin", 5, "table"),
+  Sym("%", <<"%">>, "bin", 5, "table"),
+  Sym("+", <<"+">>, "bin", 6, "table"),
+  Sym("-", <<"-">>, "bin", 6, "table"),
+  Sym("<<", <<"<", "<">>, "bin", 7, "table"),
+  Sym(">>", <<">", ">">>, "bin", 7, "table"),
+  Sym("&", <<"&">>, "bin", 8, "table"),
+  Sym("^", <<"^">>, "bin", 9, "table"),
+  Sym("|", <<"|">>, "bin", 10, "table"),
+  Sym("==", <<"=", "=">>, "bin", 11, "table"),
+  Sym("!=", <<"!", "=">>, "bin", 11, "table"),
+  Sym("<", <<"<">>, "bin", 11, "table"),
+  Sym("<=", <<"<", "=">>, "bin", 11, "table"),
+  Sym(">", <<">">>, "bin", 11, "table"),
+  Sym(">=", <<">", "=">>, "bin", 11, "table"),
+  Sym("&&", <<"&", "&">>, "bin", 12, "table"),
+  Sym("||", <<"|", "|">>, "bin", 13, "table"),
   \* level 14: assignments
-  Sym(<<"=">>, "bin", 14, "table"),
-  Sym(<<"+", "=">>, "bin", 14, "table"),
-  Sym(<<"-", "=">>, "bin", 14, "table"),
-  Sym(<<"*", "=">>, "bin", 14, "table"),
-  Sym(<<"/", "=">>, "bin", 14, "table"),
-  Sym(<<"%", "=">>, "bin", 14, "table"),
-  Sym(<<"*", "*", "=">>, "bin", 14, "table"),
-  Sym(<<"&", "=">>, "bin", 14, "table"),
-  Sym(<<"|", "=">>, "bin", 14, "table"),
-  Sym(<<"^", "=">>, "bin", 14, "table"),
-  Sym(<<"<", "<", "=">>, "bin", 14, "table"),
-  Sym(<<">", ">", "=">>, "bin", 14, "table")
+  Sym("=", <<"=">>, "bin", 14, "table"),
+  Sym("+=", <<"+", "=">>, "bin", 14, "table"),
+  Sym("-=", <<"-", "=">>, "bin", 14, "table"),
+  Sym("*=", <<"*", "=">>, "bin", 14, "table"),
+  Sym("/=", <<"/", "=">>, "bin", 14, "table"),
+  Sym("%=", <<"%", "=">>, "bin", 14, "table"),
+  Sym("**=", <<"*", "*", "=">>, "bin", 14, "table"),
+  Sym("&=", <<"&", "=">>, "bin", 14, "table"),
+  Sym("|=", <<"|", "=">>, "bin", 14, "table"),
+  Sym("^=", <<"^", "=">>, "bin", 14, "table"),
+  Sym("<<=", <<"<", "<", "=">>, "bin", 14, "table"),
+  Sym(">>=", <<">", ">", "=">>, "bin", 14, "table")
 >>
 
-TableSet == Range(Table)
+TableSet == {Table[i] : i \in 1..Len(Table)}
 Levels == 1..14
 \* "Left-to-right" everywhere except level 2 (prefix) and level 14 (assignments)
 Assoc(lvl) == IF lvl \in {2, 14} THEN "right" ELSE "left"
@@ -123,20 +126,19 @@ BinNames == {e.n : e \in OfFix("bin")}
 PreNames == {e.n : e \in OfFix("pre")}
 PostNames == {e.n : e \in OfFix("post")}
 AssignNames == {e.n : e \in {x \in OfFix("bin") : x.lvl = 14}}
+Row(fix, name) == CHOOSE e \in TableSet : e.fix = fix /\ e.n = name
 
-OpKey == {<<e.fix, e.n>> : e \in TableSet}
-LvlF == [key \in OpKey |-> (CHOOSE e \in TableSet : e.fix = key[1] /\ e.n = key[2]).lvl]
-TxtF == [key \in OpKey |-> (CHOOSE e \in TableSet : e.fix = key[1] /\ e.n = key[2]).txt]
-LvlOf(fix, name) == LvlF[<<fix, name>>]
+\* the table is a function: one row per (fixity, name); a symbol's name is its characters
+TableIsFunction == Cardinality({<<e.fix, e.n>> : e \in TableSet}) = Len(Table)
+NamesAreChars == \A e \in TableSet : e.cs # <<>> => Cat(e.cs) = e.n
 
-\* the table is a function: one row per (fixity, name)
-TableIsFunction == Cardinality(OpKey) = Len(Table)
-
-Opd(name) == [t |-> "opd", s |-> name]
-Tok(e) == [t |-> e.fix, s |-> e.n]
+\* tokens carry their level (l) and their source text (x)
+Opd(name) == [t |-> "opd", s |-> name, l |-> 0, x |-> name]
+Tok(e) == [t |-> e.fix, s |-> e.n, l |-> e.lvl, x |-> e.txt]
+TokOf(fix, name) == Tok(Row(fix, name))
 IsOp(tk) == tk.t # "opd"
-Lvl(tk) == LvlF[<<tk.t, tk.s>>]
-SrcText(tk) == IF tk.t = "opd" THEN tk.s ELSE TxtF[<<tk.t, tk.s>>]
+Lvl(tk) == tk.l
+SrcText(tk) == tk.x
 
 (***************************************************************************)
 (* Well-formed token sequences: [pre] operand post* (bin [pre] operand       *)
@@ -161,34 +163,34 @@ Determined(ts) ==
      ~(ts[i].t = "post" /\ ts[i + 1].t = "post" /\ Lvl(ts[i]) = 3 /\ Lvl(ts[i + 1]) = 1)
 
 (***************************************************************************)
-(* Trees.                                                                    *)
+(* Trees: every node keeps its token in `o'.                                 *)
 (***************************************************************************)
-Leaf(s) == [k |-> "leaf", s |-> s]
-Bin(s, l, r) == [k |-> "bin", s |-> s, l |-> l, r |-> r]
-Pre(s, e) == [k |-> "pre", s |-> s, e |-> e]
-Post(s, e) == [k |-> "post", s |-> s, e |-> e]
+Leaf(tk) == [k |-> "leaf", o |-> tk]
+Bin(tk, l, r) == [k |-> "bin", o |-> tk, l |-> l, r |-> r]
+Pre(tk, e) == [k |-> "pre", o |-> tk, e |-> e]
+Post(tk, e) == [k |-> "post", o |-> tk, e |-> e]
 
 RECURSIVE Show(_)
 Show(t) ==
-  CASE t.k = "leaf" -> t.s
-    [] t.k = "bin" -> "(" \o Show(t.l) \o " " \o t.s \o " " \o Show(t.r) \o ")"
-    [] t.k = "pre" -> "(" \o t.s \o Show(t.e) \o ")"
-    [] t.k = "post" -> "(" \o Show(t.e) \o t.s \o ")"
+  CASE t.k = "leaf" -> t.o.s
+    [] t.k = "bin" -> "(" \o Show(t.l) \o " " \o t.o.s \o " " \o Show(t.r) \o ")"
+    [] t.k = "pre" -> "(" \o t.o.s \o Show(t.e) \o ")"
+    [] t.k = "post" -> "(" \o Show(t.e) \o t.o.s \o ")"
 
 \* source text of a tree with every operator application parenthesised
 RECURSIVE ShowSrc(_)
 ShowSrc(t) ==
-  CASE t.k = "leaf" -> t.s
-    [] t.k = "bin" -> "(" \o ShowSrc(t.l) \o " " \o TxtF[<<"bin", t.s>>] \o " " \o ShowSrc(t.r) \o ")"
-    [] t.k = "pre" -> "(" \o TxtF[<<"pre", t.s>>] \o " " \o ShowSrc(t.e) \o ")"
-    [] t.k = "post" -> "(" \o ShowSrc(t.e) \o " " \o TxtF[<<"post", t.s>>] \o ")"
+  CASE t.k = "leaf" -> t.o.x
+    [] t.k = "bin" -> "(" \o ShowSrc(t.l) \o " " \o t.o.x \o " " \o ShowSrc(t.r) \o ")"
+    [] t.k = "pre" -> "(" \o t.o.x \o " " \o ShowSrc(t.e) \o ")"
+    [] t.k = "post" -> "(" \o ShowSrc(t.e) \o " " \o t.o.x \o ")"
 
 RECURSIVE Toks(_)
 Toks(t) ==
-  CASE t.k = "leaf" -> <<Opd(t.s)>>
-    [] t.k = "bin" -> Toks(t.l) \o <<[t |-> "bin", s |-> t.s]>> \o Toks(t.r)
-    [] t.k = "pre" -> <<[t |-> "pre", s |-> t.s]>> \o Toks(t.e)
-    [] t.k = "post" -> Toks(t.e) \o <<[t |-> "post", s |-> t.s]>>
+  CASE t.k = "leaf" -> <<t.o>>
+    [] t.k = "bin" -> Toks(t.l) \o <<t.o>> \o Toks(t.r)
+    [] t.k = "pre" -> <<t.o>> \o Toks(t.e)
+    [] t.k = "post" -> Toks(t.e) \o <<t.o>>
 
 RECURSIVE Size(_)
 Size(t) == CASE t.k = "leaf" -> 1
@@ -211,12 +213,12 @@ SplitAt(ts) ==
 
 RECURSIVE Group(_)
 Group(ts) ==
-  IF Len(ts) = 1 THEN Leaf(ts[1].s)
+  IF Len(ts) = 1 THEN Leaf(ts[1])
   ELSE LET i == SplitAt(ts)
            n == Len(ts)
-       IN CASE ts[i].t = "bin" -> Bin(ts[i].s, Group(SubSeq(ts, 1, i - 1)), Group(SubSeq(ts, i + 1, n)))
-            [] ts[i].t = "pre" -> Pre(ts[i].s, Group(SubSeq(ts, 2, n)))
-            [] ts[i].t = "post" -> Post(ts[i].s, Group(SubSeq(ts, 1, n - 1)))
+       IN CASE ts[i].t = "bin" -> Bin(ts[i], Group(SubSeq(ts, 1, i - 1)), Group(SubSeq(ts, i + 1, n)))
+            [] ts[i].t = "pre" -> Pre(ts[i], Group(SubSeq(ts, 2, n)))
+            [] ts[i].t = "post" -> Post(ts[i], Group(SubSeq(ts, 1, n - 1)))
 
 RECURSIVE GroupSplitOk(_)
 GroupSplitOk(ts) ==
@@ -241,15 +243,15 @@ RECURSIVE AllTrees(_)
 AllTrees(ts) ==
   LET n == Len(ts) IN
   IF n = 0 THEN {}
-  ELSE IF n = 1 THEN (IF ts[1].t = "opd" THEN {Leaf(ts[1].s)} ELSE {})
-  ELSE LET bins == UNION {{Bin(ts[i].s, l, r) : l \in AllTrees(SubSeq(ts, 1, i - 1)),
-                                               r \in AllTrees(SubSeq(ts, i + 1, n))} :
+  ELSE IF n = 1 THEN (IF ts[1].t = "opd" THEN {Leaf(ts[1])} ELSE {})
+  ELSE LET bins == UNION {{Bin(ts[i], l, r) : l \in AllTrees(SubSeq(ts, 1, i - 1)),
+                                             r \in AllTrees(SubSeq(ts, i + 1, n))} :
                           i \in {j \in 2..(n - 1) : ts[j].t = "bin"}}
-           pres == IF ts[1].t = "pre" THEN {Pre(ts[1].s, e) : e \in AllTrees(SubSeq(ts, 2, n))} ELSE {}
-           posts == IF ts[n].t = "post" THEN {Post(ts[n].s, e) : e \in AllTrees(SubSeq(ts, 1, n - 1))} ELSE {}
+           pres == IF ts[1].t = "pre" THEN {Pre(ts[1], e) : e \in AllTrees(SubSeq(ts, 2, n))} ELSE {}
+           posts == IF ts[n].t = "post" THEN {Post(ts[n], e) : e \in AllTrees(SubSeq(ts, 1, n - 1))} ELSE {}
        IN bins \cup pres \cup posts
 
-NodeLvl(t) == LvlF[<<t.k, t.s>>]
+NodeLvl(t) == t.o.l
 
 RECURSIVE RightOpen(_)
 RightOpen(t) == CASE t.k = "bin" -> {NodeLvl(t)} \cup RightOpen(t.r)
@@ -296,24 +298,22 @@ MReduce(m) ==
       n == Len(m.opds)
   IN IF op.t = "bin"
      THEN [m EXCEPT !.ops = Front(m.ops),
-                    !.opds = SubSeq(m.opds, 1, n - 2) \o <<Bin(op.s, m.opds[n - 1], m.opds[n])>>]
+                    !.opds = SubSeq(m.opds, 1, n - 2) \o <<Bin(op, m.opds[n - 1], m.opds[n])>>]
      ELSE [m EXCEPT !.ops = Front(m.ops),
-                    !.opds = SubSeq(m.opds, 1, n - 1) \o <<Pre(op.s, m.opds[n])>>]
+                    !.opds = SubSeq(m.opds, 1, n - 1) \o <<Pre(op, m.opds[n])>>]
 
 MShift(m) ==
   LET tk == Head(m.rest)
       n == Len(m.opds)
-  IN CASE tk.t = "opd" -> [m EXCEPT !.rest = Tail(m.rest), !.opds = Append(m.opds, Leaf(tk.s))]
+  IN CASE tk.t = "opd" -> [m EXCEPT !.rest = Tail(m.rest), !.opds = Append(m.opds, Leaf(tk))]
        [] tk.t = "post" -> [m EXCEPT !.rest = Tail(m.rest),
-                                     !.opds = SubSeq(m.opds, 1, n - 1) \o <<Post(tk.s, m.opds[n])>>]
+                                     !.opds = SubSeq(m.opds, 1, n - 1) \o <<Post(tk, m.opds[n])>>]
        [] OTHER -> [m EXCEPT !.rest = Tail(m.rest), !.ops = Append(m.ops, tk)]
 
-\* tokens held by a machine state, in source order (operands and pending operators interleave:
-\* pending operator j sits in front of the operands that were pushed after it)
-MCount(m) == Len(m.rest) + Len(m.ops) + (IF m.opds = <<>> THEN 0 ELSE
-              LET RECURSIVE S(_)
-                  S(i) == IF i = 0 THEN 0 ELSE Size(m.opds[i]) + S(i - 1)
-              IN S(Len(m.opds)))
+\* number of tokens held by a machine state
+RECURSIVE SizeSum(_, _)
+SizeSum(opds, i) == IF i = 0 THEN 0 ELSE Size(opds[i]) + SizeSum(opds, i - 1)
+MCount(m) == Len(m.rest) + Len(m.ops) + SizeSum(m.opds, Len(m.opds))
 
 \* the same machine run to completion as a function (used where no state space is wanted)
 RECURSIVE MRun(_)
@@ -324,9 +324,10 @@ Climb(ts) == MRun(MInit(ts))
 (***************************************************************************)
 (* 5. Lex: maximal munch over the pure operator symbols.                     *)
 (***************************************************************************)
-SymSet == {e.cs : e \in {x \in TableSet : x.cs # <<>>}}
-SymNames == {Cat(cs) : cs \in SymSet}
-MaxSymLen == Max({Len(cs) : cs \in SymSet})
+SymRows == {[n |-> e.n, cs |-> e.cs] : e \in {x \in TableSet : x.cs # <<>>}}   \* `*' `-' once
+SymSet == {e.cs : e \in SymRows}
+SymNames == {e.n : e \in SymRows}
+NameOfSym(cs) == (CHOOSE e \in SymRows : e.cs = cs).n
 
 MatchesAt(cs, chars, i) ==
   /\ i + Len(cs) - 1 <= Len(chars)
@@ -341,7 +342,7 @@ LexFrom(chars, i) ==
   IF i > Len(chars) THEN <<>>
   ELSE LET m == LongestAt(chars, i)
        IN IF m = <<>> THEN <<"#lexical-error">>
-          ELSE <<Cat(m)>> \o LexFrom(chars, i + Len(m))
+          ELSE <<NameOfSym(m)>> \o LexFrom(chars, i + Len(m))
 Lex(chars) == LexFrom(chars, 1)
 
 \* laws of Lex
@@ -354,7 +355,7 @@ LexMaximal(chars) ==
                        /\ \A cs \in SymSet : MatchesAt(cs, chars, i) => Len(cs) <= Len(m)
                        /\ Ok(i + Len(m))
   IN Ok(1)
-NeverSplit == \A cs \in SymSet : Lex(cs) = <<Cat(cs)>>
+NeverSplit == \A e \in SymRows : Lex(e.cs) = <<e.n>>
 
 (***************************************************************************)
 (* Classification of a sequence of names (operand names and operator        *)
@@ -370,12 +371,12 @@ ClassifyFrom(names, i, st) ==
        IF st \in {"E", "P"} /\ x \in OperandNames
          THEN <<Opd(x)>> \o ClassifyFrom(names, i + 1, "O")
        ELSE IF st = "E" /\ x \in PreNames
-         THEN <<[t |-> "pre", s |-> x]>> \o ClassifyFrom(names, i + 1, "P")
+         THEN <<TokOf("pre", x)>> \o ClassifyFrom(names, i + 1, "P")
        ELSE IF st = "O" /\ x \in PostNames
-         THEN <<[t |-> "post", s |-> x]>> \o ClassifyFrom(names, i + 1, "O")
+         THEN <<TokOf("post", x)>> \o ClassifyFrom(names, i + 1, "O")
        ELSE IF st = "O" /\ x \in BinNames
-         THEN <<[t |-> "bin", s |-> x]>> \o ClassifyFrom(names, i + 1, "E")
-       ELSE <<[t |-> "bad", s |-> x]>>
+         THEN <<TokOf("bin", x)>> \o ClassifyFrom(names, i + 1, "E")
+       ELSE <<[t |-> "bad", s |-> x, l |-> 0, x |-> x]>>
 Classify(names) == ClassifyFrom(names, 1, "E")
 Accepted(ts) == (\A i \in 1..Len(ts) : ts[i].t # "bad") /\ WellFormed(ts)
 
@@ -555,24 +556,24 @@ ApAssign(op, x, y, env, st) ==
 
 RECURSIVE Ev(_, _, _)
 Ev(t, env, st) ==
-  CASE t.k = "leaf" -> [v |-> env[t.s], st |-> st]
+  CASE t.k = "leaf" -> [v |-> env[t.o.s], st |-> st]
     [] t.k = "pre" ->
          LET a == Ev(t.e, env, st) IN
-         IF IsBad(a.v) THEN a ELSE [v |-> ApPre(t.s, a.v, a.st), st |-> a.st]
+         IF IsBad(a.v) THEN a ELSE [v |-> ApPre(t.o.s, a.v, a.st), st |-> a.st]
     [] t.k = "post" ->
          LET a == Ev(t.e, env, st) IN
-         IF IsBad(a.v) THEN a ELSE [v |-> ApPost(t.s, a.v, env), st |-> a.st]
+         IF IsBad(a.v) THEN a ELSE [v |-> ApPost(t.o.s, a.v, env), st |-> a.st]
     [] t.k = "bin" ->
          LET a == Ev(t.l, env, st) IN
          IF IsBad(a.v) THEN a ELSE
          LET b == Ev(t.r, env, a.st) IN
          IF IsBad(b.v) THEN b
-         ELSE IF t.s \in {"&&", "||"} THEN
+         ELSE IF t.o.s \in {"&&", "||"} THEN
                 IF a.v.k # "bool" \/ b.v.k # "bool" THEN [v |-> TErr, st |-> st]
-                ELSE IF a.v.v = (t.s = "||") THEN [v |-> a.v, st |-> a.st]   \* short circuit: rhs not run
+                ELSE IF a.v.v = (t.o.s = "||") THEN [v |-> a.v, st |-> a.st]   \* short circuit: rhs not run
                 ELSE [v |-> b.v, st |-> b.st]
-         ELSE IF t.s \in AssignNames THEN ApAssign(t.s, a.v, b.v, env, b.st)
-         ELSE [v |-> ApBin(t.s, a.v, b.v, env), st |-> b.st]
+         ELSE IF t.o.s \in AssignNames THEN ApAssign(t.o.s, a.v, b.v, env, b.st)
+         ELSE [v |-> ApBin(t.o.s, a.v, b.v, env), st |-> b.st]
 
 RECURSIVE FirstOrder(_)
 FirstOrder(v) == \/ v.k \in {"int", "bool"}
